@@ -30,6 +30,7 @@ func checkC02(p *core.Program, r *core.Report) {
 		"O2.6": "Define: AssertIsEqual(batch result, post-root) on every path; operands are distinct circuit fields",
 		"O2.7": "depth guard (depth > 31 ⇒ error) dominates every API / gadget call of Define",
 		"O2.8": "no NewHint/Commit/Defer and no API handed to code outside the repository in definition code",
+		"O2.11": "the prover of this circuit (ProveDeletion, its shape validator, their callees) constructs no refusal under a condition on request values",
 		"O2.10": "imported verdict: the input-hash side of the circuit (C03, which imports C06's comparator rules and C04's Keccak layout)",
 		"O2.9": "completeness: every constraint-introducing API/gadget call of Define, the batch, round, Merkle and step definitions is a subterm of the definition's result or of an assert evaluated by O2.3 / accounted by O2.6, O1.6 or the input-hash binding (C03)",
 		"O1.6": "Merkle gadget (shared with C01): fold over levels with the two orderings of {running, sibling} selected by a boolean bit",
@@ -269,6 +270,21 @@ func checkC02(p *core.Program, r *core.Report) {
 	// O2.8
 	checkNoHints(p, r, ctx, br.Circuit, "O2.8")
 	// O2.10: as O1.9 — the input-hash side must accept every canonical value
+	// O2.11: "every input that meets the relation is accepted" as observed at the prover: the prover of this circuit, its
+	// shape validator and whatever they call refuse nothing on the strength of request *values* (a range test on the start
+	// index or on an index that overflows for the largest depth refuses valid batches the circuit would accept)
+	if T, _, _ := circuitTypeOf(p, "SetupDeletion"); T != nil {
+		if ps := provingSystemType(p); ps != nil {
+			for _, fn := range p.RepoFuncs() {
+				if fn.Signature.Recv() == nil || namedOf(fn.Signature.Recv().Type()) != ps || fn.Signature.Results().Len() != 2 || delegateTarget(fn) != nil || requestParamIndex(fn) < 0 {
+					continue
+				}
+				if wt := witnessCircuitType(fn); wt != nil && wt == T {
+					checkRefusals(p, r, "O2.11", fn)
+				}
+			}
+		}
+	}
 	importVerdicts(p, r, "O2.10", "the input-hash binding adds no restriction of its own: packer, reducedness comparator and Keccak layout", "C03")
 	r.Extra["merkle_convention"] = map[string]any{"direction_bit_0_puts_running_node_first": mr.DirZeroAccFirst, "hash": mr.Hash2.Name}
 }
